@@ -146,6 +146,9 @@ def discharge_overflow(A, bb, op, a, b, ty):
         return "R1 constant operands"
     tmax = type_max(ty)
     if op in ("Sub", "SubUnchecked"):
+        sa, sb = G.strip(a), G.strip(b)
+        if sa[0] == "max" and (G.strip(sa[1]) == sb or G.strip(sa[2]) == sb):
+            return "R2 max(x, y) - y: the minuend is at least y by construction"
         j = G.entails(facts, ("cmp", "Ge", a, b))
         if j is not None:
             return "R2 fact a >= b: %s" % [G.show(facts[i]) for i in j[1]]
